@@ -209,7 +209,7 @@ Lemma G_rename_move : forall k h old new h' r, WFup h -> new < length h ->
   rename_move k cfg_fixed h old new = (h', r) -> G h h'.
 Proof.
   induction k as [|k IH]; intros h old new h' r W Hn; cbn [rename_move]; [done_same|].
-  destruct (n_first (nd h old)); [|done_same].
+  destruct (n_first (nd h old)) as [i|]; [|done_same].
   destruct (p_remove h old i) as [h1 r1] eqn:E1. pose proof (G_p_remove _ _ _ _ _ W E1) as [W1 L1].
   destruct (is_err r1); [intros [= <- _]; split; assumption|].
   destruct (ins ins_fuel cfg_fixed h1 new i None) as [h2 r2] eqn:E2.
